@@ -34,7 +34,7 @@ ARGS = ['', '1', '1+1', 'a, b', "'ls -l'", '"rm"', 'x.y', '__name__', 'A1:B2', '
 # it is not fixed by the statement, so only the address is judged for these
 NESTED_ARGS = ['(1+2)*3', '("ls")', '(1, 2)', 'a, (b)', '[1, (2)]', '((x))']
 SUFFIX = ['', '', ' # c', '.x', ' + 1', ';', '"', ' (', ' )', ' :)', ' ((', ' ) (']
-TITLES = ['S1', 'Data_2', 'my sheet', 'Лист1', '2024', 'a.b', 'Q (1)', 'x-y', 'T']
+TITLES = ['S1', 'Data_2', 'my sheet', 'Лист1', '2024', 'a.b', 'Q (1)', 'x-y', 'T', 'Rates {2024}', 'a}b', '{{tpl}}', '{0}', '%s %(x)d', 'it''s', 'tab\there', '100%', '#ref', 'a,b;c']
 INNOCENT = ['SUM(A1:A3)', 'hello (world)', 'IF(A1>1, "a", "b")', 'text', 'a (b) c', 42, 3.5, True, dt.datetime(2024, 5, 1),
             '=SUM(A1:A3)', '=IF(A1>1,"a","b")', '=A1+1', '=ROUND(A1,1)', 'MAX(1, 2) and MIN(3)', '()', 'f ()', '(x)', 'A(']
 
